@@ -383,6 +383,9 @@ fn run_a(ops: &[AOp], obs: &mut Obs) -> Result<(), Violation> {
                 obs.count("probe.equal_salience_equal_instant_pair");
             }
             list.push(Pending { seq: my_seq, created_ns, add_seq, act: a, maybe_absent });
+            if list.len() == 257 {
+                obs.count("probe.more_than_256_activations_pending_in_a_group");
+            }
             add_seq += 1;
         }
     }
@@ -697,6 +700,23 @@ impl World for AgendaWorld {
             let sal = [*rng.pick(&[-1i32, 0, 5]), 0, *rng.pick(&[10i32, i32::MAX, 1])];
             let mut ops = Vec::new();
             let mut stall_left = 0;
+            // one run in 250: a backlog — 260-340 activations of five rules are added before anything is
+            // popped, most of them to one group (housekeeping that only starts at a few hundred pending entries)
+            let backlog = !long && rng.chance(1, 250);
+            if backlog {
+                for _ in 0..260 + rng.usize(80) {
+                    ops.push(AOp::Add(Act {
+                        rule: rng.below(nrules) as u8,
+                        salience: *rng.pick(&sal),
+                        agenda_group: if rng.chance(1, 8) { rng.below(groups as u64) as u8 } else { 0 },
+                        activation_group: 0,
+                        no_loop: rng.chance(1, 2),
+                        lock_on_active: false,
+                        auto_focus: false,
+                        clock_step_ns: if clock_mode == 3 { 0 } else { rng.range(1, 50) as u32 },
+                    }));
+                }
+            }
             for _ in 0..n {
                 let w = rng.weighted(&[42, 30, 6, 6, 3, if split { 12 } else { 0 }, if split { 12 } else { 0 }, if strategies { 5 } else { 0 }]);
                 ops.push(match w {
@@ -757,7 +777,7 @@ impl World for AgendaWorld {
                 }
             }
             // drain at the end so that every pending activation is either returned or judged
-            for _ in 0..(if long { n / 2 } else { rng.usize(6) }) {
+            for _ in 0..(if long { n / 2 } else if backlog { 20 + rng.usize(30) } else { rng.usize(6) }) {
                 ops.push(AOp::Next { mark: true });
             }
             AgendaTrace::A { hash_seed, ops }
